@@ -196,10 +196,17 @@ func (g *Gateway) handleLegacyProtocol(w http.ResponseWriter, r *http.Request, t
 		log.Printf("Opening RDGOUT for client %s", id.GetAttribute(identity.AttrClientIp))
 
 		t.transportOut = out
-		out.SendAccept(true)
-
+		// make the tunnel known before the client is told to continue with RDG_IN_DATA
 		c.Set(t.RDGId, t, cache.DefaultExpiration)
+
+		out.SendAccept(true)
 	} else if r.Method == MethodRDGIN {
+		if t.transportOut == nil {
+			log.Printf("RDG_IN_DATA for session %s without an established RDG_OUT_DATA channel", t.RDGId)
+			http.Error(w, "no RDG_OUT_DATA channel for this connection", http.StatusBadRequest)
+			return
+		}
+
 		legacyConnections.Inc()
 		defer legacyConnections.Dec()
 
